@@ -7,18 +7,19 @@ Local Open Scope Z_scope.
 Section VerifyMono.
 Variable sha256 ripemd160 sha1 : bytes -> bytes.
 Variable ck : checker.
+Variable tap_commit : bytes -> bytes -> bytes -> bool.
 Variables f g : Z.
 Hypothesis Hle : flags_le f g.
 
 Notation eval_g := (eval sha256 ripemd160 sha1 g ck).
 Notation eval_f := (eval sha256 ripemd160 sha1 f ck).
-Notation vwp_g := (verify_witness_program sha256 ripemd160 sha1 g ck).
-Notation vwp_f := (verify_witness_program sha256 ripemd160 sha1 f ck).
+Notation vwp_g := (verify_witness_program sha256 ripemd160 sha1 g ck tap_commit).
+Notation vwp_f := (verify_witness_program sha256 ripemd160 sha1 f ck tap_commit).
 
 (* walk through the successful run under g, collecting for each stage the corresponding fact about f *)
 Ltac transport E :=
   try (let E' := fresh "Evf" in pose proof (eval_mono sha256 ripemd160 sha1 ck f g Hle _ _ _ _ E) as E');
-  try (let E' := fresh "Ewf" in pose proof (verify_witness_program_mono sha256 ripemd160 sha1 ck f g Hle _ _ _ _ E) as E').
+  try (let E' := fresh "Ewf" in pose proof (verify_witness_program_mono sha256 ripemd160 sha1 ck f g Hle tap_commit _ _ _ _ E) as E').
 Ltac walk H :=
   repeat
     (cbn [obind verr vok] in H;
@@ -40,8 +41,8 @@ Ltac finish :=
   cbn [obind verr vok andb orb negb]; try reflexivity.
 
 Theorem verify_script_mono ssig spk wit : flags_valid f = true -> flags_valid g = true ->
-  verify_script sha256 ripemd160 sha1 g ck ssig spk wit = Some (Ok tt) ->
-  verify_script sha256 ripemd160 sha1 f ck ssig spk wit = Some (Ok tt).
+  verify_script sha256 ripemd160 sha1 g ck tap_commit ssig spk wit = Some (Ok tt) ->
+  verify_script sha256 ripemd160 sha1 f ck tap_commit ssig spk wit = Some (Ok tt).
 Proof.
   unfold verify_script, flags_valid. cbv zeta.
   destruct (has f SCR_FLAG_SIGPUSHONLY) eqn:fS; destruct (has g SCR_FLAG_SIGPUSHONLY) eqn:gS; try (apply Hle in fS; congruence);
@@ -94,9 +95,9 @@ Proof.
 Qed.
 
 (* A spend that verifies under the standard (policy) flags verifies under the script flags of any block *)
-Theorem policy_implies_consensus sha256 ripemd160 sha1 ck bf ssig spk wit : In bf SCR_BLOCK_FLAGS_ALL ->
-  verify_script sha256 ripemd160 sha1 SCR_STANDARD_SCRIPT_VERIFY_FLAGS ck ssig spk wit = Some (Ok tt) ->
-  verify_script sha256 ripemd160 sha1 bf ck ssig spk wit = Some (Ok tt).
+Theorem policy_implies_consensus sha256 ripemd160 sha1 ck tap_commit bf ssig spk wit : In bf SCR_BLOCK_FLAGS_ALL ->
+  verify_script sha256 ripemd160 sha1 SCR_STANDARD_SCRIPT_VERIFY_FLAGS ck tap_commit ssig spk wit = Some (Ok tt) ->
+  verify_script sha256 ripemd160 sha1 bf ck tap_commit ssig spk wit = Some (Ok tt).
 Proof.
   intros Hin H. destruct (block_flags_le_standard bf Hin) as [Hle Hv].
   eapply verify_script_mono; [exact Hle|exact Hv|exact (proj2 block_flags_valid)|exact H].
